@@ -2,7 +2,7 @@
     sent through the real middleware and compares status class, redirect
     target class, whether the probe handler ran, and the session table. *)
 From AGH Require Import Base.Run Model.Session.
-From AGH Require Export Model.AuthHttp.
+From AGH Require Export Model.AuthHttp Model.AuthLife.
 From AGH Require Import Proofs.AuthGlob Gen.Routes.
 From stdpp Require Import gmap.
 Local Open Scope Z_scope.
@@ -103,7 +103,24 @@ Inductive case :=
      with the table observed after each.  The model side: [Session.restart]
      on the stored records (the model of C12, used as it is), then the
      wrapper model on each request, threading the session state. *)
-  | CReload (recs : stable) (now0 : N) (loaded : stable) (reqs : list (env * chain_sel * request * obs)).
+  | CReload (recs : stable) (now0 : N) (loaded : stable) (reqs : list (env * chain_sel * request * obs))
+  (* round 5 (J): the chain was BUILT (the wrapper constructors called, the
+     route registered through the real httpRegister) while the world was
+     [ew]; the request was served after the world had become [e]. *)
+  | CProbe2 (ew e : env) (sess : stable) (k : chain_sel) (r : request) (o : obs)
+  (* round 5 (I, J): the life of an installation.  [f0]: the users: list of
+     the configuration file at the beginning ([None]: no file).  Every step:
+     the operation (real detectFirstRun / parseConfig / config.write /
+     initUsers / newWebAPI for a boot; the wizard's last call; a save; the end
+     of the process) and what was found afterwards: the process
+     ([None]: none; otherwise globalContext.firstRun and Auth.users, [None]
+     for a nil Auth), the users: list of the file ([None]: no file), and
+     requests through the mux as it was built at boot, each through the chain
+     of a probe route (the three state fields of the probe's [env] are the
+     model's business, see [env_with]). *)
+  | CLife (f0 : option (list account))
+          (steps : list (op * (option (bool * option (list account)) * option (list account) *
+                               list (env * chain_sel * request * obs)))).
 
 (** The map in memory only: the bucket is the business of C12 (Run/C12.v). *)
 Definition mk_sess (t : stable) : sstate :=
@@ -164,6 +181,42 @@ Fixpoint reload_reqs (s : sstate) (reqs : list (env * chain_sel * request * obs)
       obs_ok o (ran, lk, st, loc, ss_mem s') && reload_reqs s' reqs'
   end.
 
+(** Round 5 (J): the evaluator runs the chain through [apply_chain_l_at],
+    which gets the world of the construction as well. *)
+Definition run_probe_at (ew e : env) (sess : stable) (k : chain_sel) (r : request) : bool * bool * Z * Z * gmap bytes Session.sess :=
+  let w := {| w_app := None; w_sess := mk_sess sess |} in
+  let '(w', a) := apply_chain_l_at (chain_of_sel k) ew probe false e w r in
+  let '(st, loc) := match a with
+                    | AHandler _ => (200, 0)
+                    | AStatus c => (c, 0)
+                    | ARedirect c l => (c, loc_class l)
+                    end in
+  (match w_app w' with Some _ => true | None => false end,
+   match w_app w' with Some b => b | None => false end, st, loc, ss_mem (w_sess w')).
+
+(** Round 5 (I): the replay of a history.  usersList and the start-up facts
+    are the code's ([users_list], [Gen.Routes.startup]). *)
+Definition life_obs := (option (bool * option (list account)) * option (list account) * list (env * chain_sel * request * obs))%type.
+
+Definition life_step_ok (st' : life) (x : life_obs) : bool :=
+  let '(oproc, ofile, probes) := x in
+  bool_decide (l_file st' = ofile) &&
+  match l_proc st', oproc with
+  | None, None => match probes with [] => true | _ => false end
+  | Some p, Some (fr, au) =>
+      Bool.eqb (p_first_run p) fr && bool_decide (p_auth p = au) &&
+      forallb (fun '(e, k, r, o) => obs_ok o (run_probe (env_with p e) [] k r)) probes
+  | _, _ => false
+  end.
+
+Fixpoint life_ok (st : life) (steps : list (op * life_obs)) : bool :=
+  match steps with
+  | [] => true
+  | (o, x) :: rest =>
+      let st' := step users_list Gen.Routes.startup st o in
+      life_step_ok st' x && life_ok st' rest
+  end.
+
 Definition case_ok (c : case) : bool :=
   match c with
   | CProbe e sess k r o =>
@@ -202,6 +255,8 @@ Definition case_ok (c : case) : bool :=
   | CReload recs now0 loaded reqs =>
       let s1 := restart now0 (mk_stored recs) in
       stab_ok (ss_mem s1) loaded && reload_reqs s1 reqs
+  | CProbe2 ew e sess k r o => obs_ok o (run_probe_at ew e sess k r)
+  | CLife f0 steps => life_ok {| l_file := f0; l_proc := None |} steps
   end.
 
 Definition mismatches := Base.Run.mismatches case_ok.
@@ -234,4 +289,20 @@ Definition explain (c : case) : bool * Z * Z * stable :=
                               let '(ran, _, st, _, s') := run_probe_st e s k r in (s', (ran, st)))
                            reqs (s1, (false, 0)) in
       (fst (snd fin), snd (snd fin), 0, map (fun '(k, s) => (k, (s_user s, s_expire s))) (map_to_list (ss_mem s1)))
+  | CProbe2 ew e sess k r _ =>
+      let '(ran, _, st, loc, m) := run_probe_at ew e sess k r in
+      (ran, st, loc, map (fun '(k, s) => (k, (s_user s, s_expire s))) (map_to_list m))
+  | CLife f0 steps =>
+      (* the model's final state: is a process running and does it require
+         authentication; the number of the first step that disagrees (0: none);
+         the number of accounts in the file (-1: no file); the file's accounts *)
+      let fin := fold_left (fun '(st, i, bad) '(o, x) =>
+                              let st' := step users_list Gen.Routes.startup st o in
+                              (st', i + 1, if (bad =? 0) && negb (life_step_ok st' x) then i + 1 else bad))
+                           steps ({| l_file := f0; l_proc := None |}, 0, 0) in
+      let st := fst (fst fin) in
+      (match l_proc st with Some p => proc_auth_present p && non_empty (proc_users p) | None => false end,
+       snd fin,
+       match l_file st with Some us => Z.of_nat (length us) | None => -1 end,
+       match l_file st with Some us => map (fun '(n, h) => (n, (h, 0%N))) us | None => [] end)
   end.
